@@ -800,9 +800,6 @@ def graph_signature(item):
         # one end was positioned by the two-known-nodes branch along a walked path that does not contain
         # this edge: path_to_closest_known selected another placed neighbour (it minimises pos - size)
         return 'Graph.assign_stretchy:stretchy-ge-violated:unwalked-neighbour'
-    if 'between:offpath' in (hf, ht):
-        # positioned along a walked path that is not the longest path whose stretch was used
-        return 'Graph.assign_stretchy:stretchy-ge-violated:offpath-stretch'
     if hf in RIGID and ht in RIGID:
         # both ends were positioned rigidly (critical path / fixed offsets): the longest-path stage treats
         # fixed edges as one-directional
@@ -831,6 +828,11 @@ def classify(case, res, spec_bad):
         return new_key, det
     spec_kinds = set(c[3] for ax in ('x', 'y') for c in spec_bad.get(ax, []))
     if method == 'graph':
+        if all(o['kind'] == 'eq' and o.get('how_f') in RIGID and o.get('how_t') in RIGID for o in own) and spec_kinds == {'eq'}:
+            # a redundant fixed edge between two nodes that were BOTH positioned rigidly (critical path /
+            # assign_fixed1 through another fixed edge) and never by the stretch stage
+            det['signatures'] = ['Graph.assign_fixed:fixed-eq-violated:rigid-fixed-chain']
+            return 'Graph.assign_fixed:fixed-eq-violated:rigid-fixed-chain', det
         if spec_kinds != {'ge'} or any(o['kind'] != 'ge' for o in own):
             return new_key, det
         sigs = set(graph_signature(o) for o in own)
@@ -1079,17 +1081,36 @@ SPACINGS = ['1', '3/2', '2', '2', '5/2', '3']
 
 # minimal reproducers of the defects recorded in known_findings.json (always run first)
 CORPUS = [
+    # graph placer, four distinct failing situations (known_findings.json)
     {'id': 'corpus_graph_dangling', 'method': 'graph', 'opts': {'node_spacing': '1'},
      'lines': ['VM3 1 3; up=0.5', 'W1 3 6; up=0.5', 'L1 2 6; up, size=2', 'W2 2 3; up=0.75']},
-    {'id': 'corpus_lineq_fixed_replaced', 'method': 'lineq', 'opts': {'node_spacing': '2'},
-     'lines': ['V1 2 1; down, fixed', 'L1 1 2; up=0.5']},
+    {'id': 'corpus_graph_unwalked', 'method': 'graph', 'opts': {'node_spacing': '3'},
+     'lines': ['W1 2 3; down', 'C1 1 2; down, size=3, fixed', 'D1 2 4_3; up=0.5', 'C2 1 4_3; down=2', 'SW1 3 4_3 no; up, size=0.5']},
+    {'id': 'corpus_graph_rigid_ge', 'method': 'graph', 'opts': {'node_spacing': '3/2'},
+     'lines': ['NR1 1 2_2; down=1, fixed', 'W2 5 2_2; up', 'V1 3_3 7; up=0.5, size=3, fixed', 'Y1 2_2 3_3; right=1', 'FS1 1 5; down=1, size=3']},
+    {'id': 'corpus_graph_rigid_eq', 'method': 'graph', 'opts': {'node_spacing': '2'},
+     'lines': ['P1 1 4; right=1, fixed', 'I1 5 1; right=0.5', 'L1 5 4; right=2, fixed', 'P2 6 1; left=2']},
+    # lineq placer, symptom classes of Lineq.solve
     {'id': 'corpus_lineq_negative_stretch', 'method': 'lineq', 'opts': {'node_spacing': '1'},
      'lines': ['VM1 2 1; down=0.5, size=1', 'VM3 1 3; up=0.5', 'W2 2 3; up=0.75']},
+    {'id': 'corpus_lineq_equation_dropped', 'method': 'lineq', 'opts': {'node_spacing': '2'},
+     'lines': ['R1 1 2; up=1.5', 'NR1 2 3; down=0.25', 'BAT2 8 3; down=0.5', 'W 2 8; up=0.5, fixed']},
+    {'id': 'corpus_lineq_float_rank', 'method': 'lineq', 'opts': {'node_spacing': '2'},
+     'lines': ['R1 1 2; right=0.1, fixed', 'R2 2 3; right=0.2, fixed', 'R3 1 3; right=0.3, fixed']},
+    # regression sentinel for the repaired Lineq.add (fix eafc8c3): must pass
+    {'id': 'corpus_lineq_fixed_replaced', 'method': 'lineq', 'opts': {'node_spacing': '2'},
+     'lines': ['V1 2 1; down, fixed', 'L1 1 2; up=0.5']},
 ]
+F = Fraction
 CORPUS_WIT = {
-    'corpus_graph_dangling': {'2': (0, 0), '3': (0, 1), '1': (0, Fraction(1, 2)), '6': (0, 2)},
-    'corpus_lineq_fixed_replaced': {'2': (0, 1), '1': (0, 0)},
+    'corpus_graph_dangling': {'2': (0, 0), '3': (0, 1), '1': (0, F(1, 2)), '6': (0, 2)},
+    'corpus_graph_unwalked': {'1': (0, 4), '2': (0, 1), '3': (0, 0), '4_3': (0, 2)},
+    'corpus_graph_rigid_ge': {'1': (0, 3), '2_2': (0, 2), '5': (0, 0), '3_3': (1, 2), '7': (1, 5)},
+    'corpus_graph_rigid_eq': {'5': (0, 0), '1': (1, 0), '4': (2, 0), '6': (3, 0)},
     'corpus_lineq_negative_stretch': {'2': (0, 1), '1': (0, 0), '3': (0, 2)},
+    'corpus_lineq_equation_dropped': {'1': (1, 0), '2': (1, 3), '3': (1, F(5, 2)), '8': (1, F(7, 2))},
+    'corpus_lineq_float_rank': {'1': (0, 0), '2': (F(1, 10), 0), '3': (F(3, 10), 0)},
+    'corpus_lineq_fixed_replaced': {'2': (0, 1), '1': (0, 0)},
 }
 
 
@@ -1123,6 +1144,10 @@ def make_cases(rng, geoms, tier):
         c['_kind'] = 'corpus'
         cases.append(c)
     cases.append({'id': 'corpus_ladder_single', 'net': 'L(1)', 'layout': 'ladder', 'method': 'graph', 'opts': {}, '_kind': 'network'})
+    cases.append({'id': 'corpus_lineq_singular_lineq', 'net': 'R(1)|C(2)|L(3)|R(4)', 'layout': 'horizontal', 'method': 'lineq',
+                  'opts': {'node_spacing': '1'}, '_kind': 'network'})
+    cases.append({'id': 'corpus_lineq_singular_graph', 'net': 'R(1)|C(2)|L(3)|R(4)', 'layout': 'horizontal', 'method': 'graph',
+                  'opts': {'node_spacing': '1'}, '_kind': 'network'})
     for pid, lines, wit in PROBES:
         for m in ('graph', 'lineq'):
             cases.append({'id': '%s_%s' % (pid, m), 'lines': list(lines), 'method': m, 'opts': {'node_spacing': '2'},
@@ -1303,6 +1328,7 @@ def run(tier='quick', replay=None):
                 res.count('impl_error')
                 c['_error'] = r['error']
                 c['_tb'] = r.get('tb', '')
+                c['_frames'] = r.get('frames', [])
                 continue
             if c.get('_kind') == 'network':
                 try:
@@ -1447,10 +1473,11 @@ def run(tier='quick', replay=None):
         exc = {}
         for c in cases:
             if c.get('_error') and c.get('_kind') in ('generated', 'corpus', 'probe', 'network', 'replay'):
-                sib = byid.get(c['id'].replace('_lineq', '_graph')) if c['id'].endswith('_lineq') else None
+                sib = byid.get(c['id'][:-len('_lineq')] + '_graph') if c['id'].endswith('_lineq') else None
                 sib_ok = c.get('_kind') == 'corpus' or (sib is not None and 'error' not in sib[1])
-                if c['method'] == 'lineq' and sib_ok and re.search(r'schemlineqplacer\.py", line \d+, in solve', c.get('_tb', '')) \
-                        and c['_error'].startswith('LinAlgError') and 'inv(Ur)' in c.get('_tb', ''):
+                last = (c.get('_frames') or [['', '', '']])[-1]
+                if c['method'] == 'lineq' and sib_ok and c['_error'].startswith('LinAlgError') and \
+                        last[0] == 'schemlineqplacer.py' and last[1] == 'solve' and 'inv(Ur)' in last[2]:
                     # the sub-matrix of "basic" columns picked from the LU factor is singular
                     key = 'Lineq.solve:singular-basis'
                 elif 'NetlistIsNone' in c['_error'] and c.get('layout') == 'ladder' and re.fullmatch(r'[A-Za-z]+\([0-9.]+\)', c.get('net', '')):
